@@ -41,26 +41,46 @@ Section TextDoc.
         rewrite (IH (acc ++ s) l eq_refl). rewrite <- app_assoc. reflexivity.
   Qed.
 
-  (* join(sep) with a string separator on an array of scalars: the texts separated by sep *)
+  Definition strnull (v : jv) : option bytes := match v with JNull => Some [] | JStr s => Some s | _ => None end.
+  Fixpoint inter (sep : bytes) (first : bool) (ts : list bytes) : list bytes :=
+    match ts with [] => [] | t :: r => (if first then [] else sep) :: t :: inter sep false r end.
+  Lemma inter_join sep ts : List.concat (inter sep true ts) = join_bytes sep ts.
+  Proof.
+    destruct ts as [|t ts]; [reflexivity|]. simpl. revert t. induction ts as [|u ts IH]; intros t; simpl.
+    - rewrite app_nil_r. reflexivity.
+    - rewrite <- IH. simpl. reflexivity.
+  Qed.
+  Lemma join_items_texts sep vs : forall first texts, all_some_b (map cell_text vs) = Some texts ->
+    exists items, join_items ff first (JStr sep) vs = Val items /\ all_some_b (map strnull items) = Some (inter sep first texts).
+  Proof.
+    induction vs as [|x xs IH]; intros first ts HT; simpl in *.
+    - inversion HT; subst. exists []. auto.
+    - destruct (cell_text x) as [t|] eqn:CT; [|discriminate].
+      destruct (all_some_b (map cell_text xs)) as [ts'|] eqn:E; [|discriminate]. inversion HT; subst.
+      destruct (IH false ts' eq_refl) as (items & EI & AS).
+      assert (X : exists x', (match x with JBool _ | JNum _ => do s <- encode ff x; Val (JStr s) | _ => Val x end) = Val x'
+                    /\ strnull x' = Some t).
+      { destruct x as [|[]| | | | |]; simpl in CT; inversion CT; subst; eexists; split; reflexivity. }
+      destruct X as (x' & EX & TX). rewrite EX. cbn [bind]. rewrite EI. cbn [bind].
+      eexists. split; [reflexivity|]. cbn [map all_some_b inter]. rewrite TX, AS.
+      destruct first; reflexivity.
+  Qed.
+
+  (* join(sep) with a string separator on a non-empty array of scalars: the texts separated by sep
+     (null -> "", booleans and numbers -> their JSON text) *)
   Theorem f_join_doc vs sep texts : vs <> [] ->
     all_some_b (map cell_text vs) = Some texts ->
     f_join pf ff (JArr vs) (JStr sep) = Val (JStr (join_bytes sep texts)).
   Proof.
-    intros NE H. unfold f_join. cbn [values]. destruct vs as [|v0 vs]; [congruence|]. clear NE.
-    assert (G : forall vs first texts, all_some_b (map cell_text vs) = Some texts ->
-              exists items, join_items ff first (JStr sep) vs = Val items /\
-                all_some_b (map (fun v => match v with JNull => Some [] | JStr s => Some s | _ => None end) items)
-                = Some (flat_map (fun t => [sep; t]) texts) /\ True).
-    { induction vs0 as [|x xs IH]; intros first ts HT; simpl in *.
-      - inversion HT; subst. exists []. auto.
-      - destruct (cell_text x) as [t|] eqn:CT; [|discriminate].
-        destruct (all_some_b (map cell_text xs)) as [ts'|] eqn:E; [|discriminate]. inversion HT; subst.
-        destruct (IH false ts' eq_refl) as (items & EI & AS & _).
-        assert (X : exists x', (match x with JBool _ | JNum _ => do s <- encode ff x; Val (JStr s) | _ => Val x end) = Val x'
-                      /\ match x' with JNull => Some [] | JStr s => Some s | _ => None end = Some t).
-        { destruct x as [|[]| | | | |]; simpl in CT; inversion CT; subst; eexists; split; reflexivity. }
-        destruct X as (x' & EX & TX). rewrite EX. cbn [bind]. rewrite EI. cbn [bind].
-        exists ((if first then JStr [] else JStr sep) :: x' :: items). split; [reflexivity|].
-        split; auto. cbn [map all_some_b].
-  Abort.
+    intros NE H. unfold f_join. cbn [values]. destruct vs as [|v0 vs]; [congruence|].
+    destruct (join_items_texts sep (v0 :: vs) true texts H) as (items & EI & AS). rewrite EI. cbn [bind].
+    destruct items as [|i0 items]; [simpl in EI; destruct (match v0 with JBool _ | JNum _ => _ | _ => _ end); try discriminate; simpl in EI; destruct (join_items ff false (JStr sep) vs); discriminate|].
+    (* the first item is the empty string *)
+    assert (I0 : i0 = JStr []).
+    { simpl in EI. destruct (match v0 with JBool _ | JNum _ => _ | _ => _ end); try discriminate. simpl in EI.
+      destruct (join_items ff false (JStr sep) vs); try discriminate. simpl in EI. inversion EI. reflexivity. }
+    subst i0. cbn [add_seq add_step bind].
+    cbn [map all_some_b strnull] in AS. destruct (all_some_b (map strnull items)) as [ts|] eqn:E; [|discriminate].
+    rewrite (add_seq_strings items [] ts E). rewrite <- inter_join. simpl in AS. inversion AS as [HH]. rewrite <- HH. reflexivity.
+  Qed.
 End TextDoc.
